@@ -62,6 +62,10 @@ CLAIMED = {
           "Generated-input search over DFC/DSC/CCT, extension chains, cumulative sets, user-data and comment blocks, programme start and reader configurations: exact rational times, word-level text, per-character colours/italic/underline, justification, region anchoring; every asserted cell of the five character tables enumerated.",
           "Trusted: vt/gen_stl.py assemble()/expected() (self-tested byte-exactly against a bundled file) with independently written ISO 6937 / 8859 tables; contested code points are not asserted; geometry asserted as containment + anchored edge.",
           "DESIGN.md C09"),
+  "C11": ("Hypothesis WebVTT files from file / cue-text / cue-settings grammars with the expected cue model built alongside; geometry validity predicates and anchoring; writer output round trip through a strict parser",
+          "Generated-input search: one P per cue with exact rational times, payload lines, character references, per-character markup (b/i/u/c/lang/v/ruby), inline timestamps as absolute begins, region geometry inside the root with the anchoring the WebVTT rendering rules give, region sharing; the VTT writer's output over styled documents is re-read and compared with what a strict parser reads.",
+          "Trusted: vt/gen_vtt.py expectations (self-tested, grammar re-validated per case), vt/cueparse.py. Known findings: ruby inside other tags / markup inside ruby raise (model restricts ruby to p). Colours of custom STYLE classes are not compared (STYLE blocks are skipped by design).",
+          "DESIGN.md C11"),
 }
 NOT_APPLICABLE = {}
 
